@@ -604,6 +604,53 @@ before the fix of D15, which closed the last fragment at `len(w) - 1`. -/
 def naturalBreaksYields (fixed : Bool) (n maxI : Int) (accept : Bool) : List Int :=
   if accept then [maxI, if fixed then n else n - 1, NO_MORE_SPLITS] else [NO_MORE_SPLITS]
 
+/-- state of `LocalMinimumSplitter.find_split_points` -/
+structure LMState where
+  foundOne : Bool
+  lastMax : Rat
+  minSinceMax : Rat
+  minSinceMaxI : Nat
+deriving Repr, DecidableEq, Inhabited
+
+/-- the sentinel `99999999999999.9` -/
+def lmBig : Rat := 999999999999999 / 10
+
+/-- `if x < min_since_max:` new minimum since the last maximum -/
+def lmMin (st : LMState) (i : Nat) (x : Rat) : LMState :=
+  if x < st.minSinceMax then { st with minSinceMax := x, minSinceMaxI := i } else st
+
+/-- `if min(last_max, x) > max(min_since_max + min_height, min_since_max * min_ratio):` significant local minimum:
+`yield min_since_max_i, 0.0` (`some k`), reset both finders -/
+def lmYield (minHeight minRatio : Rat) (st : LMState) (i : Nat) (x : Rat) : LMState × Option Nat :=
+  if min st.lastMax x > max (st.minSinceMax + minHeight) (st.minSinceMax * minRatio) then
+    ({ st with foundOne := true, lastMax := x, minSinceMax := lmBig, minSinceMaxI := i }, some st.minSinceMaxI)
+  else (st, none)
+
+/-- `if x > last_max:` new maximum, reset the minimum finder -/
+def lmMax (st : LMState) (i : Nat) (x : Rat) : LMState :=
+  if x > st.lastMax then { st with lastMax := x, minSinceMax := lmBig, minSinceMaxI := i } else st
+
+/-- loop body of `LocalMinimumSplitter.find_split_points` for sample `x` at index `i` -/
+def lmStep (minHeight minRatio : Rat) (st : LMState) (i : Nat) (x : Rat) : LMState × Option Nat :=
+  let r := lmYield minHeight minRatio (lmMin st i x) i x
+  (lmMax r.1 i x, r.2)
+
+/-- `for i, x in enumerate(w)`: the yielded split indices and the final `found_one` -/
+def lmLoop (minHeight minRatio : Rat) : List Rat → Nat → LMState → List Int × Bool
+  | [], _, st => ([], st.foundOne)
+  | x :: xs, i, st =>
+    let r := lmStep minHeight minRatio st i x
+    let rest := lmLoop minHeight minRatio xs (i+1) r.1
+    (match r.2 with
+     | some k => (k : Int) :: rest.1
+     | none => rest.1, rest.2)
+
+/-- everything `LocalMinimumSplitter.find_split_points(w, dt, peak_i, min_height, min_ratio)` yields (first
+components): the prominent local minima, then `len(w)` if there was at least one, then `NO_MORE_SPLITS` -/
+def localMinimumYields (w : List Rat) (minHeight minRatio : Rat) : List Int :=
+  let r := lmLoop minHeight minRatio w 0 { foundOne := false, lastMax := -lmBig, minSinceMax := lmBig, minSinceMaxI := 0 }
+  r.1 ++ (if r.2 then [(w.length : Int)] else []) ++ [NO_MORE_SPLITS]
+
 /-! ## symmetric_moving_average -/
 
 /-- One iteration of the loop of `symmetric_moving_average` on the state `(asum, count)`.
